@@ -15,7 +15,7 @@ pub static DEF: PropDef = PropDef {
     rule: "inputs: streams from the independent valid-stream generator (main source: non-zero padding, 284+31 \
 for length 258, HLIT/HDIST/HCLEN slack, code 16 after a zero run, empty blocks, stored blocks with padding), real \
 compressors and mutations that still parse; enumerated: every (length, distance, 258-coding) token under the fixed \
-code and seeded dynamic codes, all final-padding patterns at every bit offset, all stored-block padding patterns. \
+code and seeded dynamic codes, all final-padding patterns at every bit offset, all stored-block padding patterns, every dynamic header size HLIT 257..288 x HDIST 1..32. \
 Oracle (hook parse_and_rewrite = parser followed directly by the block writer): rewritten bytes == D[..consumed], \
 consumed <= |D|, no panic. Non-trivial = at least one block parsed; distinct = hash of D[..consumed].",
     assumptions: &[
@@ -171,6 +171,15 @@ fn exh(ctx: &mut Ctx, sub: &str, start: u64, count: u64) {
     for idx in start..start + count {
         let streams: Vec<Vec<u8>> = if sub == "padding" {
             padding_streams(idx / 256, (idx % 256) as u8)
+        } else if sub == "headers" {
+            // idx = ((hlit-257) * 32 + (hdist-1)) * 4 + variant
+            let variant = idx % 4;
+            let hd = (idx / 4) % 32 + 1;
+            let hl = (idx / 4) / 32 + 257;
+            match crate::gen_syn::header_size_stream(hl as usize, hd as usize, variant) {
+                Some((s, _)) => vec![s],
+                None => vec![],
+            }
         } else {
             vec![lendist_stream(idx / 32768, (idx % 32768) as u32 + 1, &prefix)]
         };
@@ -217,6 +226,13 @@ fn worker(ctx: &mut Ctx) {
     ctx.exhaustive.push(json!({
         "subspace": "final-padding and stored-block padding: 256 patterns x 8 bit offsets",
         "shard_range": [a, b], "of": total_p
+    }));
+    let total_h = 32 * 32 * 4;
+    let (a, b) = shard_range(total_h, ctx.cfg.shard, ctx.cfg.nshards);
+    exh(ctx, "headers", a, b - a);
+    ctx.exhaustive.push(json!({
+        "subspace": "dynamic header sizes: HLIT 257..288 x HDIST 1..32 x 4 variants (trailing-zero slack or real last codes, final padding)",
+        "shard_range": [a, b], "of": total_h
     }));
     ctx.set_inflight(&json!({"kind":"between"}));
 
